@@ -583,6 +583,49 @@ func (w *World) V1ProofTxn(id types.FileContractID, fc types.FileContract, windo
 	return types.Transaction{StorageProofs: []types.StorageProof{{ParentID: id, Leaf: leaf, Proof: proof}}}
 }
 
+// V1FormRevise forms a v1 contract and revises THAT contract in the next transaction of the same block (twice if
+// twice is set): the revision's parent exists only among the block's own creations.
+func V1FormRevise(twice bool) Action {
+	name := "v1form+revise-in-block"
+	if twice {
+		name = "v1form+revise-twice-in-block"
+	}
+	return Action{name, func(bc *BlockCtx) bool {
+		save, nonce := bc.snapshot()
+		n := len(bc.V1)
+		if !v1form(bc, bc.H+1, bc.H+3, 100, 7) || len(bc.V1) != n+1 {
+			*bc = save
+			bc.W.Nonce = nonce
+			return false
+		}
+		w := bc.W
+		t1 := bc.V1[n]
+		fcid := t1.FileContractID(0)
+		cur := t1.FileContracts[0]
+		times := 1
+		if twice {
+			times = 2
+		}
+		for i := 0; i < times; i++ {
+			rev := cur
+			rev.ValidProofOutputs = append([]types.SiacoinOutput(nil), cur.ValidProofOutputs...)
+			rev.MissedProofOutputs = append([]types.SiacoinOutput(nil), cur.MissedProofOutputs...)
+			rev.RevisionNumber++
+			one := types.Siacoins(1)
+			rev.ValidProofOutputs[0].Value = rev.ValidProofOutputs[0].Value.Sub(one)
+			rev.ValidProofOutputs[1].Value = rev.ValidProofOutputs[1].Value.Add(one)
+			rev.MissedProofOutputs[0].Value = rev.MissedProofOutputs[0].Value.Sub(one)
+			rev.MissedProofOutputs[1].Value = rev.MissedProofOutputs[1].Value.Add(one)
+			txn := types.Transaction{FileContractRevisions: []types.FileContractRevision{{ParentID: fcid, UnlockConditions: w.Keys.UCForHash(cur.UnlockHash), FileContract: rev}}}
+			w.SignV1Whole(&txn)
+			bc.V1 = append(bc.V1, txn)
+			cur = rev
+		}
+		bc.Names = append(save.Names, name)
+		return true
+	}}
+}
+
 // V1ProofFee is V1Proof(false) whose transaction also spends a siacoin output entirely as miner fees (a storage proof
 // transaction may carry no outputs, but it may carry inputs and fees).
 func V1ProofFee() Action {
